@@ -57,6 +57,16 @@ class ShardWriterNP(ShardWriterBase):
 
             values (dict[str, npt.NDArray[np.generic]]): Attribute values.
         """
+        # All attributes (and nothing else) have to be present otherwise the
+        # buffers of different attributes would get different lengths.
+        expected_names = {
+            attribute.name
+            for attribute in self.dataset_structure.saved_data_description
+        }
+        if set(values) != expected_names:
+            raise ValueError(f"Expected values of exactly the attributes "
+                             f"{expected_names} got {set(values)}")
+
         # Just buffer all values.
         if not self._buffer:
             self._buffer = {
